@@ -9,7 +9,8 @@ from . import events as E
 
 PUBS = ["00" * 32, "00" * 31 + "01", "ab" * 31 + "00", "ab" * 31 + "01", "ff" * 32]
 QKINDS = [0, 1, 2, 256, 257, 65535, 5, 30000]  # adjacent (k, k+1, k*256)
-QVALS = ["a", "ab", "abc", "ab\x00", "", "b", "a b", ":x", "a :b", "'", "é", "%"]
+LONG = "L" * 260
+QVALS = ["a", "ab", "abc", "ab\x00", "", "b", "a b", ":x", "a :b", "'", "é", "%", LONG, LONG + "x"]
 QNAMES = ["t", "t", "p", "e", "q", "'"]
 TS = [E.T0 - 2, E.T0 - 1, E.T0, E.T0 + 1, E.T0 + 2]
 TS_EDGE = [1, 2, 2**24 - 1, 2**24, 2**24 + 1, 2**31 - 1]
@@ -20,7 +21,10 @@ def st_qevent(draw, idhex, regular_only=True, delegation=False):
     kinds = [0, 1, 2, 256, 257, 65535, 4, 7] if regular_only else QKINDS
     tags = []
     for _ in range(draw(E.weighted((2, st.just(0)), (4, st.just(1)), (3, st.just(2)), (1, st.just(3))))):
-        name = draw(st.sampled_from(QNAMES))
+        if tags and draw(st.integers(0, 2)) == 0:
+            name = tags[-1][0]  # several values under one tag name
+        else:
+            name = draw(st.sampled_from(QNAMES))
         if name in ("e", "p") and draw(st.booleans()):
             val = draw(st.sampled_from(PUBS))
         else:
@@ -53,7 +57,7 @@ def _tagpairs(store):
 def st_filter(draw, store, limit=None, allow_absent=True, max_conds=3):
     """A well-formed filter built mostly from values present in `store`."""
     f = {}
-    conds = draw(st.lists(st.sampled_from(["ids", "authors", "kinds", "tag", "tag", "since", "until"]),
+    conds = draw(st.lists(st.sampled_from(["ids", "authors", "kinds", "tag", "tag2", "since", "until"]),
                           min_size=1, max_size=max_conds, unique=True))
     if all(c in ("since", "until") for c in conds) and draw(st.booleans()):
         conds.append(draw(st.sampled_from(["kinds", "authors", "tag"])))
@@ -78,14 +82,20 @@ def st_filter(draw, store, limit=None, allow_absent=True, max_conds=3):
             f["authors"] = pick([e["pubkey"] for e in store], PUBS + ["12" * 32])
         elif c == "kinds":
             f["kinds"] = pick([e["kind"] for e in store], QKINDS + [3, 255, 258])
-        elif c == "tag":
-            pairs = _tagpairs(store)
+        elif c in ("tag", "tag2"):
+            pairs = [(n, v) for (n, v) in _tagpairs(store) if "#" + n not in f]
             if pairs and draw(st.integers(0, 4)) != 0:
                 name = draw(st.sampled_from(pairs))[0]
             else:
-                name = draw(st.sampled_from(QNAMES))
+                name = draw(st.sampled_from([n for n in QNAMES if "#" + n not in f]))
             present = [v for (n, v) in pairs if n == name]
-            f["#" + name] = pick(present, QVALS)
+            multi = [sorted({t[1] for t in e["tags"] if len(t) >= 2 and t[0] == name and isinstance(t[1], str)})
+                     for e in store]
+            multi = [m for m in multi if len(m) >= 2]
+            if multi and draw(st.integers(0, 2)) == 0:
+                f["#" + name] = draw(st.sampled_from(multi))  # all values one event carries
+            else:
+                f["#" + name] = pick(present, QVALS)
         elif c in ("since", "until"):
             f[c] = draw(E.weighted(
                 (8, st.sampled_from([E.T0 - 3, E.T0 - 2, E.T0 - 1, E.T0, E.T0 + 1, E.T0 + 2, E.T0 + 3])),
@@ -98,8 +108,34 @@ def st_filter(draw, store, limit=None, allow_absent=True, max_conds=3):
 
 
 @st.composite
-def st_store_and_filters(draw, max_filters=3, max_events=20, limit=None, **kw):
+def st_history(draw, max_events=20, **kw):
+    """a store plus NIP-09 deletions by own and foreign authors and resubmitted duplicates:
+    the list is the arrival order; what is stored afterwards is read from the raw dump"""
     store = draw(st_store(max_events=max_events, **kw))
+    extra = []
+    for _ in range(draw(weighted_int([5, 3, 2]))):
+        tgt = draw(st.sampled_from(store))
+        own = draw(st.booleans())
+        pk = tgt["pubkey"] if own else draw(st.sampled_from([p for p in PUBS if p != tgt["pubkey"]]))
+        extra.append(E.free(draw(st.binary(min_size=32, max_size=32)).hex(), pk, 5,
+                            tgt["created_at"] + draw(st.sampled_from([-1, 1, 3])),
+                            [["e", tgt["id"]]] + ([["e", draw(st.sampled_from(store))["id"]]] if draw(st.booleans()) else [])))
+    if draw(st.integers(0, 3)) == 0:
+        extra.append(dict(draw(st.sampled_from(store))))  # duplicate submission
+    pos = draw(st.lists(st.integers(0, len(store)), min_size=len(extra), max_size=len(extra)))
+    out = list(store)
+    for e, p in sorted(zip(extra, pos), key=lambda t: -t[1]):
+        out.insert(p, e)
+    return out
+
+
+def weighted_int(weights):
+    return E.weighted(*[(w, st.just(i)) for i, w in enumerate(weights)])
+
+
+@st.composite
+def st_store_and_filters(draw, max_filters=3, max_events=20, limit=None, history=False, **kw):
+    store = draw(st_history(max_events=max_events, **kw) if history else st_store(max_events=max_events, **kw))
     nf = draw(E.weighted((6, st.just(1)), (2, st.just(2)), (1, st.integers(3, max(3, max_filters)))))
     filters = [draw(st_filter(store, limit=limit)) for _ in range(nf)]
     return {"store": store, "filters": filters}
